@@ -59,9 +59,12 @@ def live_problems(sb, url, cfg, old, new):
     return out, which
 
 
-def run_one(chk, sseed, cls, npoints=6, chunk_level=False, from_empty=False, next_version=False):
+def run_one(chk, sseed, cls, npoints=6, chunk_level=False, from_empty=False, next_version=False, byhash=False):
     rng = random.Random(sseed)
     w = common.World(rng, 1, settings={"wipe_size_ratio": "0", "wipe_count_ratio": "0"})  # S4: wipe protection off
+    if byhash:   # directed: by-hash in effect before and after, so that every index has several names in skel
+        for cs in w.repos[0]["codenames"].values():
+            cs["by_hash"] = cs["serve_by_hash"] = True
     clones = []
     no_clean = False
     try:
@@ -84,6 +87,9 @@ def run_one(chk, sseed, cls, npoints=6, chunk_level=False, from_empty=False, nex
                 chk.count("skipped(first run failed)")
                 return
             new = common.evolve(rng, repo)
+            if byhash:
+                for cs in new["codenames"].values():
+                    cs["by_hash"] = cs["serve_by_hash"] = True
         stores2 = w.stores([new])
         if common.has_s3(new, cfg, stores2[url]):
             chk.evaluated(None)
@@ -96,7 +102,7 @@ def run_one(chk, sseed, cls, npoints=6, chunk_level=False, from_empty=False, nex
         sched_seed = rng.randrange(1 << 30)
         res_ref = run_e2e.execute(ref, [new], stores2, {}, vloop.RandomChooser(sched_seed))
         replay = {"scenario_seed": sseed, "class": cls, "lines": w.lines, "npoints": npoints, "chunk_level": chunk_level,
-                  "from_empty": from_empty, "next_version": next_version}
+                  "from_empty": from_empty, "next_version": next_version, "byhash": byhash}
         if res_ref.exit != 0:
             chk.violation("reference-run-failed", replay, f"fault-free run of V2 exits {res_ref.exit} {res_ref.exception!r}")
             return
@@ -221,6 +227,10 @@ def run_one(chk, sseed, cls, npoints=6, chunk_level=False, from_empty=False, nex
 def run(chk, tier, rng):
     n = 14 if tier == "quick" else 300
     classes = ["none", "transient", "none", "persistent-required", "none"]
+    for i in range(3 if tier == "quick" else 40):
+        # corpus: by-hash worlds whose indices change, killed (among others) between a by-hash file and its other names, rerun
+        # against the same upstream
+        run_one(chk, f"C07b-{chk.seed}-{i}", "none", npoints=3 if tier == "quick" else 10, byhash=True)
     for i in range(n):
         run_one(chk, f"C07-{chk.seed}-{i}", classes[i % len(classes)], npoints=5 if tier == "quick" else 14,
                 chunk_level=(i % 2 == 0), from_empty=(i % 5 == 4), next_version=(i % 3 != 0))
@@ -234,7 +244,7 @@ def replay(rep):
     chk = Check("C07", "quick", 0)
     chk.known = []
     r = rep["replay"]
-    run_one(chk, r["scenario_seed"], r["class"], r.get("npoints", 5), r.get("chunk_level", False), r.get("from_empty", False), r.get("next_version", False))
+    run_one(chk, r["scenario_seed"], r["class"], r.get("npoints", 5), r.get("chunk_level", False), r.get("from_empty", False), r.get("next_version", False), r.get("byhash", False))
     for sig, path, msg, _ in chk.violations:
         print(f"REPLAY VIOLATION {sig}: {msg}")
     return 1 if chk.violations else 0
